@@ -11,7 +11,7 @@ from props import common
 
 SPEC = os.path.join(vlib.VERIF, "specs", "Config")
 PROFILES = ["direct", "socks5", "http", "none", "plain", "2022-128", "2022-256"]
-SAFE_INV = "TypeOK OmittedIsEmpty LoaderAgrees CrashIsUndocumented DocumentedIsAccepted"
+SAFE_INV = "TypeOK OmittedIsEmpty MigrationPreserves LoaderAgrees CrashIsUndocumented DocumentedIsAccepted"
 PROPS = "RefusedIsFinal ConfigIsImmutable SettingsAreFrozen LoadOrder"
 # the invariants whose truth depends on the constants read from the compiled code, and the stable key a
 # reproduced counterexample is reported under when the trace does not name a more specific one
@@ -165,12 +165,14 @@ def run(tier, seed, replay):
     runs = plan(tier, seed)
     # the design of the compiled loader on a space that holds every variant of every dimension for three protocols
     design_space = ('Bases(AllProfiles) \\cup SinglesOf({"direct", "socks5", "2022-128"}, AllDims) \\cup PairsOf({"direct"}, {"tun"}, {"tto"})')
+    if big:
+        design_space += ' \\cup PairsOf({"2022-128"}, ServerDims, ServerDims) \\cup PairsOf({"socks5"}, ConfigDims, ConfigDims)'
 
     def design_loop():
         """TLC stops at the first violated invariant: drop it and run again until the rest holds."""
         left, found = list(CODE_INV), {}
         while True:
-            r, _ = tlc_cases(code, design_space, "{}", " ".join(["TypeOK"] + left), 2, 900, False)
+            r, _ = tlc_cases(code, design_space, "{}", " ".join(["TypeOK"] + left), 2, 3000 if big else 1500, False)
             if not r.violation:
                 return found, r
             if r.violation not in left:
@@ -180,7 +182,7 @@ def run(tier, seed, replay):
 
     t0 = time.time()
     with ThreadPoolExecutor(max_workers=16) as ex:
-        futs = {name: ex.submit(tlc_cases, code, space, given, SAFE_INV, w, 1500 if big else 600) for name, (space, given, w) in runs.items()}
+        futs = {name: ex.submit(tlc_cases, code, space, given, SAFE_INV, w, 3000 if big else 1500) for name, (space, given, w) in runs.items()}
         dfut = ex.submit(design_loop)
         fb = ex.submit(vlib.build_driver, "c18", work)
         fc = ex.submit(vlib.build_cmd, "cfgchild", work)
@@ -205,6 +207,7 @@ def run(tier, seed, replay):
                 continue
             seen.add(kk)
             c["id"] = len(cases)
+            c["label"] = [x.replace(str(-1000000), "omit").replace('"<omit>"', "omit") for x in c["label"]]
             cases.append(c)
         per_run[name] = {"distinct_states": r.distinct, "cases": len(cs), "new_cases": len(cases) - n0, "wall_s": round(r.wall, 1)}
     v.coverage["lattice_runs"] = per_run
@@ -231,16 +234,26 @@ def run(tier, seed, replay):
         if cfgs:
             case = dict(cfgs[0])
         else:
-            rr, cs = tlc_cases(code, "Given", "{[c |-> %s, l |-> <<\"counterexample\">>]}" % to_tla(last["cfg"]), "TypeOK", 1, 300)
+            rr, cs = tlc_cases(code, "Given", "{[c |-> %s, l |-> <<\"counterexample\">>]}" % to_tla(last["cfg"]), "TypeOK", 1, 1500)
             if not cs:
                 raise vlib.Broken("could not turn the counterexample of %s into a case" % inv)
             case = cs[0]
         case["id"] = 10**6 + CODE_INV.index(inv)
         case["label"] = list(case.get("label", [])) + ["design-counterexample", inv]
-        before = len(v.violations) + len(v.known)
-        run_cases(v, binary, child, [case], seed, "design counterexample (%s)" % inv, nproc=1)
-        dsum.setdefault("counterexamples", {})[inv] = {"label": case["label"], "actions": acts}
-        if len(v.violations) + len(v.known) == before:
+        reproduced = False
+        for attempt in range(3):    # (a lost datagram must not turn a real counterexample into "not reproduced")
+            tmp = vlib.Verdict("C18", tier, seed, "exploration")
+            run_cases(tmp, binary, child, [case], seed, "design counterexample (%s)" % inv, nproc=1)
+            v.notes += tmp.notes
+            if tmp.violations or tmp.known:
+                reproduced = True
+                for kk, text, rp in tmp.violations:
+                    v.violation(kk, text, rp)
+                for kk, text in tmp.known:
+                    v.violation(kk, text, None)
+                break
+        dsum.setdefault("counterexamples", {})[inv] = {"label": case["label"], "actions": acts, "reproduced": reproduced}
+        if not reproduced:
             raise vlib.Broken("TLC violates %s with the constants of the compiled code (%s) but the real manager does not reproduce it: "
                               "model and code disagree" % (inv, json.dumps(acts)[:600]))
     v.coverage["design"] = dsum
